@@ -37,6 +37,7 @@ type pipe struct {
 	eof      bool // writer closed: reader gets EOF after draining
 	broken   bool // reader gone: writes fail
 	capacity int  // >0: writer blocks while len(buf) >= capacity
+	stalled  bool // the reader has stopped for good: every write blocks (until the reader goes away)
 }
 
 // NewConnPair returns two connected ends.
@@ -75,7 +76,7 @@ func (o *connOp) Enabled() bool {
 	if o.read {
 		return len(c.in.buf) > 0 || c.in.eof || (c.rdl != 0 && S.clock >= c.rdl) || (c.ReadFailAt > 0 && c.reads+1 >= c.ReadFailAt)
 	}
-	return c.out.broken || c.out.capacity <= 0 || len(c.out.buf) < c.out.capacity || (c.wdl != 0 && S.clock >= c.wdl) || (c.WriteFailAt > 0 && c.writes+1 >= c.WriteFailAt)
+	return c.out.broken || (!c.out.stalled && (c.out.capacity <= 0 || len(c.out.buf) < c.out.capacity)) || (c.wdl != 0 && S.clock >= c.wdl) || (c.WriteFailAt > 0 && c.writes+1 >= c.WriteFailAt)
 }
 
 //go:norace
@@ -130,7 +131,7 @@ func (c *Conn) Write(p []byte) (int, error) {
 	if c.out.broken {
 		return 0, io.ErrClosedPipe
 	}
-	if c.out.capacity > 0 && len(c.out.buf) >= c.out.capacity {
+	if c.out.stalled || c.out.capacity > 0 && len(c.out.buf) >= c.out.capacity {
 		return 0, os.ErrDeadlineExceeded
 	}
 	c.out.buf = append(c.out.buf, p...)
@@ -235,6 +236,12 @@ func (c *Conn) PeerHalfClose() { c.in.eof = true }
 //
 //go:norace
 func (c *Conn) SetOutCapacity(n int) { c.out.capacity = n }
+
+// SetOutStalled makes every write of the owner block from now on (a peer that
+// stopped reading with its receive buffer full).
+//
+//go:norace
+func (c *Conn) SetOutStalled(b bool) { c.out.stalled = b }
 
 //go:norace
 func (c *Conn) Closed() bool { return c.closed }
